@@ -210,8 +210,10 @@ RULE = ("seeded random table models (layered re-converging, negative costs, ties
 # ================================================================================ C01 / C02 / C09 / C10-solver / C11-solver
 def check_c01(tier, pid="C01"):
     sc = SolveCheck(pid, tier)
-    if pid == "C01": sc.proofs("C01", ["C01_seq_solver_correct_under_diagram_contracts"])
-    if pid == "C02": sc.proofs("C02", ["C02_best_exact_path_replays", "C02_chain_feasible_in_exact_arithmetic"])
+    if pid == "C01": sc.proofs("C01+C01u", ["C01_seq_solver_correct_under_diagram_contracts", "C01_sequential_solver_returns_optimum",
+                                            "C01_sequential_solver_returns_optimum_unbounded_relax", "C01_holds_on_table_family", "C01_example_instance"])
+    if pid == "C02": sc.proofs("C02+C02u", ["C02_best_exact_path_replays", "C02_chain_feasible_in_exact_arithmetic",
+                                            "C02_sequential_solution_replays_to_reported_value"])
     if not sc.build(): return sc.chk.finish()
     n = {"C01": 60, "C02": 40, "C09": 60}.get(pid, 40) * (1 if tier == "quick" else 10)
     kind = "reconv" if pid == "C09" else "plain"
@@ -286,7 +288,8 @@ def check_c01(tier, pid="C01"):
         ncu = sum(li.count("CU ") for _, rows in res for _, li, _, _ in rows)
         npr = sum(li.count("lightgray") for _, rows in res for _, li, _, _ in rows)
         extra = {"diagram_level_cache_stream": {"compilations": sum(len(r) for _, r in res), "agreements": ag, "disagreements": len(ds),
-                                                 "cache_updates_compared": ncu}}
+                                                 "cache_updates_compared": ncu,
+                                                 "skipped_after_a_store_changing_tie": st.tainted}}
         for (I, meta, li, lm, case, why) in ds[:10]:
             sc.dis.append((I, case, li[:1200], lm[:1200], "diagram-level " + str(why)))
     if sc.dis and not any(v[0] == "property" for v in sc.chk.violations):
@@ -336,9 +339,10 @@ def check_c01(tier, pid="C01"):
 # ================================================================================ C05 / C19 (cutoff at every poll)
 def check_cutoff(tier, pid):
     sc = SolveCheck(pid, tier)
-    if pid == "C05": sc.proofs("C05", ["C05_seq_anytime_sound", "C05_seq_lb_le_ub"])
-    if pid == "C19": sc.proofs("C19", ["C19_cutoff_monotone", "C19_cutoff_monotone_any_later_point", "C19_eventually_the_uninterrupted_run",
-                                       "C19_compile_prefix_determinism"])
+    if pid == "C05": sc.proofs("C05+C05u", ["C05_seq_anytime_sound", "C05_seq_lb_le_ub", "C05_sequential_anytime_bounds_sound", "C05_holds_on_table_family"])
+    if pid == "C19": sc.proofs("C19+C19u", ["C19_cutoff_monotone", "C19_cutoff_monotone_any_later_point", "C19_eventually_the_uninterrupted_run",
+                                       "C19_compile_prefix_determinism", "C19_bounds_monotone_in_cutoff", "C19_bounds_monotone_any_later_cutoff",
+                                       "C19_large_cutoff_is_uninterrupted_run"])
     if not sc.build(): return sc.chk.finish()
     n = 25 * (1 if tier == "quick" else 10)
     insts = gen_instances(sc.rng, n, "plain")
@@ -424,7 +428,8 @@ def check_cutoff(tier, pid):
 # ================================================================================ C14 (primal)
 def check_c14(tier):
     sc = SolveCheck("C14", tier)
-    sc.proofs("C14", ["C14_seq_solver_correct_with_primal", "C14_set_primal_replaces_only_when_strictly_greater"])
+    sc.proofs("C14+C14u", ["C14_seq_solver_correct_with_primal", "C14_set_primal_replaces_only_when_strictly_greater",
+                           "C14_primal_never_hides_the_optimum"])
     if not sc.build(): return sc.chk.finish()
     n = 40 * (1 if tier == "quick" else 10)
     insts = gen_instances(sc.rng, n, "plain")
